@@ -549,4 +549,102 @@ theorem setDepotPinned_breaks :
   rw [h3] at hnode
   exact absurd hnode (by decide)
 
+/-! ## non-vacuity -/
+
+/-- a history of the base class: depot `d` added LAST and then moved to the front, two customers with
+    windows, five accepted arcs and one refused by the timing filter (`b → a`: 6 + 1 > 5) -/
+def nv_ops : List GOp :=
+  [.addNode "a" 1 2 (some 5), .addNode "b" 2 6 (some 9), .addNode "d" 0 0 none,
+   .addArc "d" "a" 2 1, .addArc "d" "b" 6 3, .addArc "a" "b" 3 1, .addArc "b" "a" 1 1, .addArc "b" "d" 2 2,
+   .addArc "a" "d" 2 1, .setDepot "d"]
+
+def nv_g : Graph := grun .base {} nv_ops
+
+/-- the reached graph, literally: depot first, keys re-mapped, `b → a` absent -/
+example : nv_g.names = ["d", "a", "b"] ∧ nv_g.arcs.map (·.1) = [(0, 1), (0, 2), (1, 2), (2, 0), (1, 0)] := by
+  decide +kernel
+
+/-- `grun_inv` on it -/
+theorem nv_inv : Inv nv_g := grun_inv .base nv_ops
+
+/-- hypotheses of `addArc_result_base` (both names known) hold on `nv_g`; the conclusion then says that
+    `b → a` is refused and the graph unchanged, and `d → b` with time 7 is stored under `(0, 2)` -/
+example : nv_g.indexOf? "b" = some 2 ∧ nv_g.indexOf? "a" = some 1 ∧ nv_g.indexOf? "d" = some 0 := by
+  decide +kernel
+
+example : (gstep .base nv_g (.addArc "b" "a" 1 1)).1 = nv_g :=
+  (addArc_result_base nv_g "b" "a" 1 1 2 1 (by decide +kernel) (by decide +kernel)).2.2.2
+    ((addArc_result_base nv_g "b" "a" 1 1 2 1 (by decide +kernel) (by decide +kernel)).2.1.2 (by decide +kernel))
+
+example : dictGet (gstep .base nv_g (.addArc "d" "b" 7 3)).1.arcs (0, 2) = some ⟨"d", "b", 7, 3⟩ :=
+  ((addArc_result_base nv_g "d" "b" 7 3 0 2 (by decide +kernel) (by decide +kernel)).2.2.1
+    ((addArc_result_base nv_g "d" "b" 7 3 0 2 (by decide +kernel) (by decide +kernel)).1.2 (by decide +kernel))).1
+
+/-- hypotheses of `setDepot_first` (`Inv`, successful call) for every flavour, on a non-first node -/
+example : (gstep .base nv_g (.setDepot "b")).2 = .ok none ∧ (gstep (.seq true) nv_g (.setDepot "b")).2 = .ok none ∧
+    (gstep (.seq false) nv_g (.setDepot "b")).2 = .ok none := by decide +kernel
+
+example : ((gstep (.seq true) nv_g (.setDepot "b")).1.nodes.head?).map (·.name) = some "b" :=
+  setDepot_first (.seq true) nv_g "b" nv_inv (by decide +kernel)
+
+/-- hypotheses of `addArc_result_strict` on the strict flavour: `a → b` passes the lenient test (2 + 3 ≤ 9) and
+    is refused by the strict one only for time > 4 (window END 5 + t ≤ 9) -/
+example : strictTiming nv_g 1 2 3 = true ∧ strictTiming nv_g 1 2 5 = false ∧
+    leE (nv_g.lo 1 + 5) (nv_g.hi 2) = true := by decide +kernel
+
+example : (gstep (.seq true) nv_g (.addArc "a" "b" 5 1)).2 = .ok (some false) :=
+  (addArc_result_strict nv_g "a" "b" 5 1 1 2 (by decide +kernel) (by decide +kernel)).2.1.2 (by decide +kernel)
+
+/-- `recheckArcs_eq_filter` (hypothesis `Inv`) is not the identity on a reachable graph: with `a → b` of time 5
+    stored by the base class, the strict re-check drops exactly that arc -/
+def nv_g5 : Graph := grun .base nv_g [.addArc "a" "b" 5 1]
+
+example : ((recheckArcs nv_g5 (fun i => true && i != 0)).arcs.map (·.1)) = [(0, 1), (0, 2), (2, 0), (1, 0)] := by
+  rw [recheckArcs_eq_filter nv_g5 (grun_inv_of .base _ nv_g nv_inv)]
+  decide +kernel
+
+/-- hypothesis of `error_leaves_state`: a call that raises -/
+example : (gstep .base nv_g (.addArc "zz" "a" 1 1)).2 = .error .value ∧
+    (gstep (.seq true) nv_g (.addNode "a" 0 0 none)).2 = .error .value ∧
+    (gstep .base nv_g (.addNode "c" 0 3 (some 2))).2 = .error .value := by decide +kernel
+
+/-- the same history with zero demands (for the capacity-free statements of C07b / C08b) -/
+def nv_ops0 : List GOp :=
+  [.addNode "a" 0 2 (some 5), .addNode "b" 0 6 (some 9), .addNode "d" 0 0 none,
+   .addArc "d" "a" 2 1, .addArc "d" "b" 6 3, .addArc "a" "b" 3 1, .addArc "b" "a" 1 1, .addArc "b" "d" 2 2,
+   .addArc "a" "d" 2 1, .setDepot "d"]
+
+def nv_g0 : Graph := grun .base {} nv_ops0
+theorem nv_inv0 : Inv nv_g0 := grun_inv .base nv_ops0
+
+example : nv_g0.arcs = nv_g.arcs ∧ nv_g0.names = nv_g.names := by decide +kernel
+
+/-- executable check of `Inv` (for the non-vacuity sections of the files that import this one) -/
+def nv_invB (g : Graph) : Bool :=
+  decide g.names.Nodup && g.nodes.all (fun n => leE n.lo n.hi) && decide (g.arcs.map (·.1)).Nodup &&
+  g.arcs.all fun e =>
+    match g.nodes[e.1.1]?, g.nodes[e.1.2]? with
+    | some ni, some nj => decide (ni.name = e.2.orig) && decide (nj.name = e.2.dest) &&
+        leE (ni.lo + e.2.time) nj.hi
+    | _, _ => false
+
+theorem nv_inv_of_invB (g : Graph) (h : nv_invB g = true) : Inv g := by
+  unfold nv_invB at h
+  simp only [Bool.and_eq_true, decide_eq_true_eq, List.all_eq_true] at h
+  obtain ⟨⟨⟨h1, h2⟩, h3⟩, h4⟩ := h
+  refine ⟨h1, h2, h3, ?_⟩
+  intro e he
+  have := h4 e he
+  cases e1 : g.nodes[e.1.1]? with
+  | none => simp [e1] at this
+  | some ni =>
+    cases e2 : g.nodes[e.1.2]? with
+    | none => simp [e1, e2] at this
+    | some nj =>
+      simp only [e1, e2, Bool.and_eq_true, decide_eq_true_eq] at this
+      exact ⟨ni, nj, rfl, rfl, this.1.1, this.1.2, this.2⟩
+
+/-- the checker agrees with `grun_inv` on the reached graph -/
+example : nv_invB nv_g = true := by decide +kernel
+
 end Vrp.C15
